@@ -187,12 +187,34 @@ def r20_1(run, model, mir, g):
     sites = sites_on_path(run, model, mir, g, R)
     gas = guarded_asserts(run, model)
     run.floor("grammar functions with a token precondition", len(gas), 25)
+    # a private helper split off a ledgered function keeps that function's entry: the sites of a function that is absent from the
+    # ledger and has exactly one caller are charged to the caller's budget (the budget is a maximum, so a site added on the way shows)
+    callers = {}
+    for a_, tgts in g.edges.items():
+        for t_ in tgts:
+            if t_ != a_:
+                callers.setdefault(t_, set()).add(a_)
+
+    def owner(src, has_entry):
+        seen = set()
+        while not has_entry(src[1]) and src not in seen:
+            seen.add(src)
+            cs_ = callers.get(src, set())
+            if len(cs_) != 1:
+                break
+            up = next(iter(cs_))
+            if up[0] != src[0]:
+                break
+            src = up
+        return src
+
     per = {}
     nindex = 0
     for src, k, c in sites:
         if k == "index":
             nindex += 1
             continue
+        src = owner(src, lambda fn_, k=k: (fn_, k) in LEDGER or fn_.startswith("hir::HirTable::") or (k == "panic" and fn_.split("::")[-1] in gas))
         per.setdefault((src, k), []).append(c)
     for (src, k), cs in sorted(per.items()):
         crate, fn_ = src
@@ -218,8 +240,10 @@ def r20_1(run, model, mir, g):
     # indexing sites: per-function ledger with a maximum count (resolved Index::index calls + MIR bounds-check asserts)
     per_fn = {}
     where = {}
+    has_index_entry = lambda fn_: fn_ in INDEX_LEDGER or fn_.startswith("hir::HirTable::")
     for src, k, c in sites:
         if k == "index":
+            src = owner(src, has_index_entry)
             per_fn[src] = per_fn.get(src, 0) + 1
             where.setdefault(src, (c["file"], c["line"]))
     for a_ in mir.raw["assert"]:
@@ -227,6 +251,7 @@ def r20_1(run, model, mir, g):
             continue
         src = (a_["crate"], base_fn(a_["caller"]))
         if src in R:
+            src = owner(src, has_index_entry)
             per_fn[src] = per_fn.get(src, 0) + 1
             where.setdefault(src, (a_["file"], a_["line"]))
     for (crate, fn_), cnt in sorted(per_fn.items()):
